@@ -317,6 +317,15 @@ func (w *UnchunkWriter) nextPipe(forceNewMessage bool) error {
 	// Lock the readers channel so that it's not closed while waiting on the
 	// select
 	w.readerMu.Lock()
+	// The readers channel is only closed (under readerMu) after closing has
+	// been closed, so once closing is seen open while holding the lock, the
+	// send below cannot hit a closed channel
+	select {
+	case <-w.closing:
+		w.readerMu.Unlock()
+		return io.ErrClosedPipe
+	default:
+	}
 	// Send reader to ChunkerReader
 	select {
 	case <-w.closing:
